@@ -104,3 +104,23 @@ func VerifC13_IPv4UnsetIHL() {
 	}
 	c13repeat(ip)
 }
+
+// a hop-by-hop header whose options do not fill the room its length field announces (the encoder
+// leaves the rest zero, i.e. Pad1), alone and inside an IPv6 packet
+func VerifC13_HopByHopUnderfilled() {
+	h := NewHopByHopHeader()
+	h.NextHeader = vr.U8("next")
+	h.HEL = uint8(vr.IntRange("hel", 0, 2))
+	room := 8*(int(h.HEL)+1) - 2
+	n1 := vr.IntRange("opt1len", 0, 4)
+	vr.Assume(n1+2 <= room)
+	h.Options = append(h.Options, &Option{Type: vr.U8("opttype"), Length: uint8(n1), Data: vr.Bytes("optdata", n1)})
+	if vr.Bool("in-ipv6") {
+		ip := bldIPv6(0, 0, 0)
+		h.NextHeader, ip.NextHeader = ip.NextHeader, Type_HBH
+		ip.HbhHeader = h
+		c13repeat(ip)
+	} else {
+		c13repeat(h)
+	}
+}
